@@ -96,12 +96,16 @@ Definition kick_cb (sv : server) (s : sid) (ducks : list sid) (n : node) : list 
   | None => (ducks, Z.of_nat session_depth)
   end.
 
-(* PassMessageCallbackAux(node, msg, includeSelfOkay = false) *)
-Definition pass_cb (sv : server) (s : sid) (r : reply) (log : list (sid * reply)) (n : node) : list (sid * reply) * Z :=
+(* PassMessageCallbackAux(node, msg, includeSelfOkay = false, &args->_sentTo): one delivery per session and traversal
+   ([sent] = PassMessageCallbackArgs::_sentTo) *)
+Definition pass_cb (sv : server) (s : sid) (r : reply) (acc : list sid * list (sid * reply)) (n : node)
+  : (list sid * list (sid * reply)) * Z :=
+  let '(sent, log) := acc in
   match owner_of sv (n_path n) with
-  | Some t => if N.eqb (s_id t) s then (log, Z.of_nat session_depth)
-              else (log ++ [(s_id t, r)], Z.of_nat session_depth)
-  | None => (log, Z.of_nat session_depth)
+  | Some t => if N.eqb (s_id t) s then (acc, Z.of_nat session_depth)
+              else if sid_mem (s_id t) sent then (acc, Z.of_nat session_depth)
+              else ((sent ++ [s_id t], log ++ [(s_id t, r)]), Z.of_nat session_depth)
+  | None => (acc, Z.of_nat session_depth)
   end.
 
 Definition keys_matcher (keys : list (spath * option qfilter)) : matcher :=
@@ -162,7 +166,7 @@ Definition dispatch (xs : xserver) (ss : session) (what : N) (keys : list (spath
           (xs_ducks xs)
     | _ =>
       mkX (xs_sv xs) (xs_priv xs)
-          (do_traversal (pass_cb (xs_sv xs) s r) (sv_tree (xs_sv xs)) (keys_matcher keys) [] true (fx_guard fx) (xs_log xs))
+          (snd (do_traversal (pass_cb (xs_sv xs) s r) (sv_tree (xs_sv xs)) (keys_matcher keys) [] true (fx_guard fx) ([], xs_log xs)))
           (xs_ducks xs)
     end.
 
